@@ -1,0 +1,37 @@
+//! Verification hooks (feature `_verif_hooks` only): thin public wrappers over crate-private
+//! items of `ln`, used by external correspondence checkers. Add-only; no behaviour of the
+//! library changes with or without this feature.
+
+/// Runs `onion_payment::check_incoming_htlc_cltv`, returning the failure reason's `Debug` name.
+pub fn check_incoming_htlc_cltv(
+	cur_height: u32, outgoing_cltv_value: u32, cltv_expiry: u32, min_cltv_expiry_delta: u16,
+) -> Result<(), String> {
+	super::onion_payment::check_incoming_htlc_cltv(
+		cur_height,
+		outgoing_cltv_value,
+		cltv_expiry,
+		min_cltv_expiry_delta,
+	)
+	.map_err(|e| format!("{:?}", e))
+}
+
+/// The crate-private timing constants, by name.
+pub fn timing_constants() -> Vec<(&'static str, u64)> {
+	use crate::chain::channelmonitor as cm;
+	use crate::ln::channelmanager as mgr;
+	vec![
+		("COUNTERPARTY_CLAIMABLE_WITHIN_BLOCKS_PINNABLE", cm::COUNTERPARTY_CLAIMABLE_WITHIN_BLOCKS_PINNABLE as u64),
+		("MAX_BLOCKS_FOR_CONF", cm::MAX_BLOCKS_FOR_CONF as u64),
+		("CLTV_CLAIM_BUFFER", cm::CLTV_CLAIM_BUFFER as u64),
+		("LATENCY_GRACE_PERIOD_BLOCKS", cm::LATENCY_GRACE_PERIOD_BLOCKS as u64),
+		("ANTI_REORG_DELAY", cm::ANTI_REORG_DELAY as u64),
+		("HTLC_FAIL_BACK_BUFFER", cm::HTLC_FAIL_BACK_BUFFER as u64),
+		("MIN_CLTV_EXPIRY_DELTA", mgr::MIN_CLTV_EXPIRY_DELTA as u64),
+		("CLTV_FAR_FAR_AWAY", mgr::CLTV_FAR_FAR_AWAY as u64),
+		("MIN_FINAL_CLTV_EXPIRY_DELTA", mgr::MIN_FINAL_CLTV_EXPIRY_DELTA as u64),
+		("MPP_TIMEOUT_TICKS", mgr::MPP_TIMEOUT_TICKS as u64),
+	]
+}
+
+pub use crate::chain::channelmonitor::verif_hooks as channelmonitor;
+pub use crate::ln::channelmanager::verif_hooks as channelmanager;
